@@ -28,6 +28,7 @@ class H:
     want_log = True
     acts = {}          # (kind, label) -> labels of the nodes that hook detaches (re-entrant hooks)
     depth = 0          # > 0 while a hook action runs: nested hook calls are silent
+    iterarg = None     # how a children argument is passed: None = list, else a one-shot iterable kind
 
     @classmethod
     def label(cls, node):
@@ -120,9 +121,20 @@ class HAnyNode(Hooks, AnyNode):
     pass
 
 
+def _inspected_target():
+    """the target of a link is an inner node of a tree of its own whose links have been read before the
+    link exists: the link's own parent / children must never show the target's"""
+    top = AnyNode()
+    t = AnyNode(parent=top)
+    AnyNode(parent=t)
+    AnyNode(parent=t)
+    assert len(t.children) == 2 and t.parent is top and len(top.children) == 1
+    return t
+
+
 class HSymlink(Hooks, SymlinkNode):
     def __init__(self, parent=None, children=None):
-        SymlinkNode.__init__(self, AnyNode(), parent=parent, children=children)
+        SymlinkNode.__init__(self, _inspected_target(), parent=parent, children=children)
 
 
 class HLight(Hooks, LightNodeMixin):
@@ -169,7 +181,18 @@ def value(v, nodes):
 def carg(a, nodes):
     if a == "notiterable":
         return 7
-    return [value(v, nodes) for v in a]
+    xs = [value(v, nodes) for v in a]
+    # the children argument is any iterable: one-shot iterables can be consumed only once
+    how = H.iterarg
+    if how == "iter":
+        return iter(xs)
+    if how == "gen":
+        return (x for x in xs)
+    if how == "reversed":
+        return reversed(xs[::-1])
+    if how == "map":
+        return map(lambda x: x, xs)
+    return xs
 
 
 def setup(cls, heap, fresh=False):
@@ -232,6 +255,7 @@ def run_one(c, clsname=None):
     H.want_log = bool(c.get("log", True))
     H.acts = {(k, n): list(xs) for k, n, xs in c.get("acts", [])}
     H.depth = 0
+    H.iterarg = c.get("iterarg")
     old_limit = sys.getrecursionlimit()
     sys.setrecursionlimit(c.get("reclimit", 250))
     H.enabled = True
